@@ -261,6 +261,9 @@ func randKey(rng *rand.Rand) []int {
 	return ints(k)
 }
 
+// allowDupKeys lets randTree repeat entry names inside a compound (only byte-exact carriers can be judged on such documents)
+var allowDupKeys bool
+
 func randTree(rng *rand.Rand, depth int, tag int) *nbtNode {
 	if tag == 0 {
 		tag = 1 + rng.Intn(12)
@@ -300,7 +303,9 @@ func randTree(rng *rand.Rand, depth int, tag int) *nbtNode {
 		seen := map[string]bool{}
 		for i := 0; i < k; i++ {
 			key := randKey(rng)
-			if seen[string(bytesOf(key))] {
+			if allowDupKeys && i > 0 && rng.Intn(3) == 0 {
+				key = n.Ent[rng.Intn(len(n.Ent))].K // a repeated entry name: legal on the wire, carriers must keep it
+			} else if seen[string(bytesOf(key))] {
 				continue
 			}
 			seen[string(bytesOf(key))] = true
